@@ -11,6 +11,10 @@
 (* projection of the real object after the call (shaf = format of the      *)
 (* cached name).  Valuations are tuples; <<>> = none, <<-1>> = bytes/hash  *)
 (* that belong to no valuation; formats 1 = SHA-1, 2 = SHA-256, 0 = none.  *)
+(* err: the call raised; bad: the harness has given the object a value     *)
+(* that cannot be serialised and has not repaired it yet (op "spoil" /     *)
+(* "unspoil"); a read of such an object is logged as op "fail" when it     *)
+(* raised and under its own name when it returned something.               *)
 (*                                                                         *)
 (* Every event is first matched against ObjFile!Next (same call, same      *)
 (* result, same post-state).  If no step matches the history has left the  *)
@@ -40,7 +44,7 @@ TraceInit ==
 
 Strict(e) ==
     /\ Next
-    /\ last'.op = e.op
+    /\ last'.op = e.op /\ last'.err = e.err /\ bad' = e.bad
     /\ (e.op = "set" => last'.f = e.f /\ last'.x = e.x)
     /\ (e.op \in {"setraw", "reload", "idF"} => last'.f = e.f)
     /\ (e.op \in {"setraw", "chunked"} => last'.ret = e.v)
@@ -54,11 +58,13 @@ Generic(e) ==
     /\ fields' = IF e.op = "set" THEN [fields EXCEPT ![e.f] = e.x]
                  ELSE IF e.op \in {"setraw", "chunked"} THEN e.v
                  ELSE fields
-    /\ dirty' = e.dirty /\ text' = ObsText(e) /\ sha' = ObsSha(e)
-    /\ last' = [op |-> e.op, f |-> e.f, x |-> e.x, ret |-> e.ret, rfmt |-> e.rfmt]
+    /\ dirty' = e.dirty /\ text' = ObsText(e) /\ sha' = ObsSha(e) /\ bad' = e.bad
+    /\ last' = [op |-> e.op, f |-> e.f, x |-> e.x, ret |-> e.ret, rfmt |-> e.rfmt, err |-> e.err]
 
 Clause(e) ==
-    IF e.op = "id" /\ e.ret # fields' THEN "IdIsHash"
+    IF e.op \in Reads /\ ~e.err /\ e.bad THEN "NoStaleAfterFailure"
+    ELSE IF e.err THEN "ok"
+    ELSE IF e.op = "id" /\ e.ret # fields' THEN "IdIsHash"
     ELSE IF e.op = "idF" /\ (e.ret # fields' \/ e.rfmt # e.f) THEN "IdIsHash"
     ELSE IF e.op \in {"raw", "copy", "check", "reload"} /\ e.ret # fields' THEN "SerCurrent"
     ELSE "ok"
